@@ -103,6 +103,8 @@ def run_case(case):
         if not any(c["t"] == t and c["form"] == "bare" for c in nodes[u]["calls"]):
             nodes[u]["calls"].append({"t": t, "form": "bare"})
         nodes[u]["calls"].append({"t": t, "form": "alias", "alias": name})
+        if case["idx"] % 2:  # ... and through a third symbol (attributes of its own name)
+            nodes[u]["calls"].append({"t": t, "form": "mod_fl"})
         out["obs"]["programs_with_a_module_level_modifier_clone"] += 1
     out["sets"]["features"] |= progs.features(prog)
     fns = [[nd["mod"], nd["name"]] for nd in prog["nodes"] if nd["kind"] == "memento"]
